@@ -45,3 +45,16 @@ pub mod bulk {
         Ok(data[8..].to_vec())
     }
 }
+
+/// subset of `zstd::zstd_safe` (re-exported by the real crate): frame header inspection under the same framing model
+pub mod zstd_safe {
+    #[derive(Debug)]
+    pub struct ContentSizeError;
+    /// Ok(Some(n)) for a buffer that starts with a frame header of the model, Err otherwise
+    pub fn get_frame_content_size(src: &[u8]) -> Result<Option<u64>, ContentSizeError> {
+        if src.len() < 8 || src[0..4] != crate::bulk::MAGIC {
+            return Err(ContentSizeError);
+        }
+        Ok(Some(u32::from_le_bytes([src[4], src[5], src[6], src[7]]) as u64))
+    }
+}
